@@ -22,9 +22,10 @@
     One requested statement is false for the model and is replaced by a relational one:
     a diagnostic quotes the lexeme of the offending token whatever its kind, and only
     identifier tokens are renamed, so the diagnostics of the renamed list are NOT
-    [option_map r] of the original ones ([map_pd_is_false]).  [rdiag] says exactly how
-    they are related; under the extra hypothesis that [r] fixes every lexeme that is
-    quoted the functional form holds ([rdiag_map_pd]). *)
+    [option_map r] of the original ones ([map_pd_is_false] in Proofs/RenameParseRun.v).
+    [rdiag] says exactly how they are related ([pprogram_rename], [parse_rename]); when
+    [r] fixes the lexemes of the non-identifier tokens of the list the functional form
+    [map_pres] / [map_pd] holds ([pprogram_rename_eq], [parse_rename_eq]). *)
 From Coq Require Import Lia.
 From Borno Require Import Base Num Unicode Token Ast Parser ParserEqs Value EnvLaws RenameDefs.
 Local Open Scope N_scope.
@@ -137,19 +138,8 @@ Fixpoint ren_stmt_all (st : stmt) : stmt :=
   | SFun name params body => SFun (r name) (map r params) (map ren_stmt_all body)
   end.
 
-(** how the diagnostics of the renamed token list relate to the original ones: the same
-    kind at the same line, quoting the renamed token (or "at end" in both) *)
-Inductive rdiag : pdiag -> pdiag -> Prop :=
-  | rd_tok t k : rdiag (diag_tok t k) (diag_tok (ren_tok t) k)
-  | rd_end l k : rdiag (mkPD l None k) (mkPD l None k).
-
-(** results related: the renamed value, the renamed rest, related diagnostics *)
-Definition prel {A} (g : A -> A) (x x' : pres A) : Prop :=
-  match x with
-  | POk a rest ds => exists ds', x' = POk (g a) (map ren_tok rest) ds' /\ Forall2 rdiag ds ds'
-  | PErr ds => exists ds', x' = PErr ds' /\ Forall2 rdiag ds ds'
-  | PFuel => x' = PFuel
-  end.
+(** the naive renaming of a diagnostic: rename the lexeme it quotes *)
+Definition map_pd (d : pdiag) : pdiag := mkPD (pd_line d) (option_map r (pd_where d)) (pd_kind d).
 
 (* ---------------------------------------------------------------- *)
 (** ** tokens *)
@@ -170,6 +160,32 @@ Qed.
 
 Lemma tl_ren ts : tl (map ren_tok ts) = map ren_tok (tl ts).
 Proof. destruct ts; reflexivity. Qed.
+
+(** [P] is a property of the tokens of the list being parsed (for instance "is a member
+    of the list"); the diagnostics quote tokens with that property *)
+Section Track.
+Variable P : token -> Prop.
+
+(** how the diagnostics of the renamed token list relate to the original ones: the same
+    kind at the same line, quoting the renamed token (or "at end" in both) *)
+Inductive rdiag : pdiag -> pdiag -> Prop :=
+  | rd_tok t k : P t -> rdiag (diag_tok t k) (diag_tok (ren_tok t) k)
+  | rd_end l k : rdiag (mkPD l None k) (mkPD l None k).
+
+(** results related: the renamed value, the renamed rest, related diagnostics *)
+Definition prel {A} (g : A -> A) (x x' : pres A) : Prop :=
+  match x with
+  | POk a rest ds =>
+      Forall P rest /\ exists ds', x' = POk (g a) (map ren_tok rest) ds' /\ Forall2 rdiag ds ds'
+  | PErr ds => exists ds', x' = PErr ds' /\ Forall2 rdiag ds ds'
+  | PFuel => x' = PFuel
+  end.
+
+Lemma Forall_tl_P ts : Forall P ts -> Forall P (tl ts).
+Proof. intros H. destruct H; simpl; [constructor|assumption]. Qed.
+
+Lemma Forall_cons_P t ts : Forall P (t :: ts) -> P t /\ Forall P ts.
+Proof. intros H. inversion H; subst. split; assumption. Qed.
 
 Section WithEof.
 Variable eofl : N.
@@ -202,58 +218,74 @@ Proof. destruct ts as [|t ts]; simpl; [reflexivity|]. rewrite tk_ren. reflexivit
 Lemma peek_line_ren ts : peek_line (map ren_tok ts) = peek_line ts.
 Proof. destruct ts as [|t ts]; simpl; [reflexivity|]. apply tline_ren. Qed.
 
-Lemma rdiag_at ts k : rdiag (diag_at ts k) (diag_at (map ren_tok ts) k).
-Proof. destruct ts as [|t ts]; simpl; [apply rd_end|apply (rd_tok t k)]. Qed.
+Lemma rdiag_at ts k : Forall P ts -> rdiag (diag_at ts k) (diag_at (map ren_tok ts) k).
+Proof.
+  intros H. destruct ts as [|t ts]; simpl; [apply rd_end|apply (rd_tok t k)].
+  apply Forall_cons_P in H. tauto.
+Qed.
+
+Lemma consume_P k pk ts t rest ds : consume k pk ts = POk t rest ds -> Forall P ts -> P t.
+Proof. intros E H. apply consume_inv in E. destruct E as (-> & _). apply Forall_cons_P in H. tauto. Qed.
 
 (* ---------------------------------------------------------------- *)
 (** ** the result relation *)
 
 Lemma prel_bind {A B} (g : A -> A) (h : B -> B) (x x' : pres A) (k k' : A -> list token -> pres B) :
   prel g x x' ->
-  (forall a rest ds, x = POk a rest ds -> prel h (k a rest) (k' (g a) (map ren_tok rest))) ->
+  (forall a rest ds, x = POk a rest ds -> Forall P rest -> prel h (k a rest) (k' (g a) (map ren_tok rest))) ->
   prel h (pbind x k) (pbind x' k').
 Proof.
   intros H K. destruct x as [a rest ds|ds|]; simpl in H.
-  - destruct H as (ds' & -> & Hd). specialize (K a rest ds eq_refl). simpl.
+  - destruct H as (HF & ds' & -> & Hd). specialize (K a rest ds eq_refl HF). simpl.
     destruct (k a rest) as [b r2 d2|d2|]; simpl in K |- *.
-    + destruct K as (d2' & -> & Hd2). eexists. split; [reflexivity|]. apply Forall2_app; assumption.
+    + destruct K as (HF2 & d2' & -> & Hd2). split; [exact HF2|].
+      eexists. split; [reflexivity|]. apply Forall2_app; assumption.
     + destruct K as (d2' & -> & Hd2). eexists. split; [reflexivity|]. apply Forall2_app; assumption.
     + rewrite K. reflexivity.
   - destruct H as (ds' & -> & Hd). simpl. eexists. split; [reflexivity|exact Hd].
   - rewrite H. reflexivity.
 Qed.
 
-Lemma prel_ok {A} (g : A -> A) a rest : prel g (POk a rest []) (POk (g a) (map ren_tok rest) []).
-Proof. simpl. eexists. split; [reflexivity|constructor]. Qed.
+Lemma prel_ok {A} (g : A -> A) a rest :
+  Forall P rest -> prel g (POk a rest []) (POk (g a) (map ren_tok rest) []).
+Proof. intros H. simpl. split; [exact H|]. eexists. split; [reflexivity|constructor]. Qed.
 
 Lemma prel_ok_at {A} (g : A -> A) a rest ts k :
+  Forall P rest -> Forall P ts ->
   prel g (POk a rest [diag_at ts k]) (POk (g a) (map ren_tok rest) [diag_at (map ren_tok ts) k]).
-Proof. simpl. eexists. split; [reflexivity|]. constructor; [apply rdiag_at|constructor]. Qed.
-
-Lemma prel_perr_at {A} (g : A -> A) k ts : prel g (perr_at ts k) (perr_at (map ren_tok ts) k).
-Proof. unfold Parser.perr_at. simpl. eexists. split; [reflexivity|]. constructor; [apply rdiag_at|constructor]. Qed.
-
-Lemma prel_perr_tok {A} (g : A -> A) k t : prel g (PErr [diag_tok t k]) (PErr [diag_tok (ren_tok t) k]).
-Proof. simpl. eexists. split; [reflexivity|]. constructor; [apply rd_tok|constructor]. Qed.
-
-Lemma prel_consume k pk ts : prel ren_tok (consume k pk ts) (consume k pk (map ren_tok ts)).
 Proof.
-  pose proof (prel_perr_at ren_tok pk ts) as E.
+  intros H H'. simpl. split; [exact H|]. eexists. split; [reflexivity|].
+  constructor; [apply rdiag_at; exact H'|constructor].
+Qed.
+
+Lemma prel_perr_at {A} (g : A -> A) k ts : Forall P ts -> prel g (perr_at ts k) (perr_at (map ren_tok ts) k).
+Proof.
+  intros H. unfold Parser.perr_at. simpl. eexists. split; [reflexivity|].
+  constructor; [apply rdiag_at; exact H|constructor].
+Qed.
+
+Lemma prel_perr_tok {A} (g : A -> A) k t : P t -> prel g (PErr [diag_tok t k]) (PErr [diag_tok (ren_tok t) k]).
+Proof. intros H. simpl. eexists. split; [reflexivity|]. constructor; [apply rd_tok; exact H|constructor]. Qed.
+
+Lemma prel_consume k pk ts : Forall P ts -> prel ren_tok (consume k pk ts) (consume k pk (map ren_tok ts)).
+Proof.
+  intros H. pose proof (prel_perr_at ren_tok pk ts H) as E.
   destruct ts as [|t ts]; [exact E|].
   unfold Parser.consume. cbn [map]. rewrite tk_ren.
   destruct (tkind_eqb (tk t) k); [apply prel_ok|exact E].
+  apply Forall_cons_P in H. tauto.
 Qed.
 
-Lemma prel_lenient {A} (g : A -> A) k pk (a : A) ts :
+Lemma prel_lenient {A} (g : A -> A) k pk (a : A) ts : Forall P ts ->
   prel g (let '(r2, ds) := consume_lenient k pk ts in POk a r2 ds)
          (let '(r2, ds) := consume_lenient k pk (map ren_tok ts) in POk (g a) r2 ds).
 Proof.
-  pose proof (rdiag_at ts pk) as D.
+  intros H. pose proof (rdiag_at ts pk H) as D.
   destruct ts as [|t ts]; simpl.
-  - eexists. split; [reflexivity|]. constructor; [exact D|constructor].
+  - split; [exact H|]. eexists. split; [reflexivity|]. constructor; [exact D|constructor].
   - rewrite tk_ren. destruct (tkind_eqb (tk t) k); simpl.
-    + eexists. split; [reflexivity|constructor].
-    + eexists. split; [reflexivity|]. constructor; [exact D|constructor].
+    + split; [apply Forall_cons_P in H; tauto|]. eexists. split; [reflexivity|constructor].
+    + split; [exact H|]. eexists. split; [reflexivity|]. constructor; [exact D|constructor].
 Qed.
 
 (* ---------------------------------------------------------------- *)
@@ -313,15 +345,25 @@ Ltac tok_norm :=
   end;
   rewrite ?is_reserved_ren, ?is_lit_container_ren, ?mk_bin_ren, ?props_put_ren.
 
+Ltac open_F :=
+  repeat match goal with
+  | H : Forall P (_ :: _) |- _ =>
+      let Hp := fresh "Hp" in apply Forall_cons_P in H; destruct H as [Hp H]
+  end.
+
+Ltac p_side :=
+  first [ assumption | apply Forall_tl_P; assumption | constructor; p_side ].
+
 Ltac p_leaf :=
   first
-  [ match goal with IH : forall _, _ |- prel _ _ _ => apply IH end
-  | apply prel_consume
-  | apply prel_perr_at
-  | apply prel_perr_tok
-  | match goal with |- prel ?g _ _ => apply (prel_lenient g) end
-  | match goal with |- prel ?g (POk ?a ?rest []) _ => exact (prel_ok g a rest) end
-  | match goal with |- prel ?g (POk ?a ?rest [Parser.diag_at _ ?ts ?k]) _ => exact (prel_ok_at g a rest ts k) end ].
+  [ match goal with IH : forall _, _ |- prel _ _ _ => apply IH; p_side end
+  | apply prel_consume; p_side
+  | apply prel_perr_at; p_side
+  | apply prel_perr_tok; p_side
+  | match goal with |- prel ?g _ _ => apply (prel_lenient g); p_side end
+  | match goal with |- prel ?g (POk ?a ?rest []) _ => refine (prel_ok g a rest _); p_side end
+  | match goal with |- prel ?g (POk ?a ?rest [Parser.diag_at _ ?ts ?k]) _ =>
+      refine (prel_ok_at g a rest ts k _ _); p_side end ].
 
 Ltac p_step :=
   cbv zeta;
@@ -329,9 +371,16 @@ Ltac p_step :=
   | |- prel _ (@pbind ?A _ _ _) _ =>
       let g := ren_for A in
       let a := fresh "a" in let rest := fresh "rest" in let ds := fresh "ds" in let E := fresh "E" in
-      eapply (prel_bind g); [ | intros a rest ds E; first [apply consume_kind in E | clear E]; tok_norm ]
+      let HF := fresh "HF" in
+      eapply (prel_bind g);
+        [ | intros a rest ds E HF;
+            first [ (let Hp := fresh "Hp" in
+                     assert (Hp : P a) by (eapply consume_P; [exact E | p_side]));
+                    apply consume_kind in E
+                  | clear E ];
+            tok_norm ]
   | |- prel _ (match ?x with [] => _ | _ :: _ => _ end) (match map ren_tok ?x with [] => _ | _ :: _ => _ end) =>
-      let t := fresh "t" in let rr := fresh "rr" in destruct x as [|t rr]; tok_norm
+      let t := fresh "t" in let rr := fresh "rr" in destruct x as [|t rr]; open_F; tok_norm
   | |- prel _ (match ?e with ELit _ _ => _ | _ => _ end) (match ren_expr_all ?e with ELit _ _ => _ | _ => _ end) =>
       destruct e; cbn [ren_expr_all]
   | |- prel _ (match ?ds with [] => _ | _ :: _ => _ end) (match map ren_vdecl_all ?ds with [] => _ | _ :: _ => _ end) =>
@@ -349,14 +398,14 @@ Ltac p_step :=
 Ltac p_go := tok_norm; repeat p_step.
 
 Definition ExprRen (f : nat) : Prop :=
-  (forall ts, prel ren_expr_all (pexpr f ts) (pexpr f (map ren_tok ts))) /\
-  (forall lv ts, prel ren_expr_all (plevel f lv ts) (plevel f lv (map ren_tok ts))) /\
-  (forall l lv e ts, prel ren_expr_all (ploop f l lv e ts) (ploop f l lv (ren_expr_all e) (map ren_tok ts))) /\
-  (forall ts, prel ren_expr_all (punary f ts) (punary f (map ren_tok ts))) /\
-  (forall e ts, prel ren_expr_all (pcallloop f e ts) (pcallloop f (ren_expr_all e) (map ren_tok ts))) /\
-  (forall ts, prel (map ren_expr_all) (pargs f ts) (pargs f (map ren_tok ts))) /\
-  (forall ts, prel ren_expr_all (pprimary f ts) (pprimary f (map ren_tok ts))) /\
-  (forall acc ts, prel ren_props_all (pprops f acc ts) (pprops f (ren_props_all acc) (map ren_tok ts))).
+  (forall ts, Forall P ts -> prel ren_expr_all (pexpr f ts) (pexpr f (map ren_tok ts))) /\
+  (forall lv ts, Forall P ts -> prel ren_expr_all (plevel f lv ts) (plevel f lv (map ren_tok ts))) /\
+  (forall l lv e ts, Forall P ts -> prel ren_expr_all (ploop f l lv e ts) (ploop f l lv (ren_expr_all e) (map ren_tok ts))) /\
+  (forall ts, Forall P ts -> prel ren_expr_all (punary f ts) (punary f (map ren_tok ts))) /\
+  (forall e ts, Forall P ts -> prel ren_expr_all (pcallloop f e ts) (pcallloop f (ren_expr_all e) (map ren_tok ts))) /\
+  (forall ts, Forall P ts -> prel (map ren_expr_all) (pargs f ts) (pargs f (map ren_tok ts))) /\
+  (forall ts, Forall P ts -> prel ren_expr_all (pprimary f ts) (pprimary f (map ren_tok ts))) /\
+  (forall acc ts, Forall P ts -> prel ren_props_all (pprops f acc ts) (pprops f (ren_props_all acc) (map ren_tok ts))).
 
 Lemma expr_ren_all : forall f, ExprRen f.
 Proof.
@@ -364,47 +413,47 @@ Proof.
   - unfold ExprRen. repeat split; intros; reflexivity.
   - destruct IH as (Ie & Il & Ilo & Iu & Ic & Ia & Ipr & Ipp).
     unfold ExprRen. split; [|split; [|split; [|split; [|split; [|split; [|split]]]]]].
-    + intros ts. rewrite !pexpr_S. p_go.
-    + intros lv ts. rewrite !plevel_S. p_go.
-    + intros l lv e ts. rewrite !ploop_S. p_go.
-    + intros ts. rewrite !punary_S. p_go.
-    + intros e ts. rewrite !pcallloop_S. p_go.
-    + intros ts. rewrite !pargs_S. p_go.
-    + intros ts. rewrite !pprimary_S. p_go.
-    + intros acc ts. rewrite !pprops_S. p_go.
+    + intros ts H. rewrite !pexpr_S. p_go.
+    + intros lv ts H. rewrite !plevel_S. p_go.
+    + intros l lv e ts H. rewrite !ploop_S. p_go.
+    + intros ts H. rewrite !punary_S. p_go.
+    + intros e ts H. rewrite !pcallloop_S. p_go.
+    + intros ts H. rewrite !pargs_S. p_go.
+    + intros ts H. rewrite !pprimary_S. p_go.
+    + intros acc ts H. rewrite !pprops_S. p_go.
 Qed.
 
-Lemma pexpr_ren f ts : prel ren_expr_all (pexpr f ts) (pexpr f (map ren_tok ts)).
+Lemma pexpr_ren f ts : Forall P ts -> prel ren_expr_all (pexpr f ts) (pexpr f (map ren_tok ts)).
 Proof. apply (expr_ren_all f). Qed.
 
-Lemma pvardecls_ren : forall f l0 ts,
+Lemma pvardecls_ren : forall f l0 ts, Forall P ts ->
   prel (map ren_vdecl_all) (pvardecls f l0 ts) (pvardecls f l0 (map ren_tok ts)).
 Proof.
-  induction f as [|f IH]; intros l0 ts; [reflexivity|].
+  induction f as [|f IH]; intros l0 ts H; [reflexivity|].
   pose proof (pexpr_ren f) as Ie. specialize (IH l0).
   rewrite !pvardecls_S. p_go.
 Qed.
 
-Lemma pvar_ren f ts : prel ren_stmt_all (pvar f ts) (pvar f (map ren_tok ts)).
+Lemma pvar_ren f ts : Forall P ts -> prel ren_stmt_all (pvar f ts) (pvar f (map ren_tok ts)).
 Proof.
-  pose proof (pvardecls_ren f) as Iv. unfold Parser.pvar. p_go.
+  intros H. pose proof (pvardecls_ren f) as Iv. unfold Parser.pvar. p_go.
 Qed.
 
-Lemma pexprstmt_ren f ts : prel ren_stmt_all (pexprstmt f ts) (pexprstmt f (map ren_tok ts)).
+Lemma pexprstmt_ren f ts : Forall P ts -> prel ren_stmt_all (pexprstmt f ts) (pexprstmt f (map ren_tok ts)).
 Proof.
-  pose proof (pexpr_ren f) as Ie. unfold Parser.pexprstmt. p_go.
+  intros H. pose proof (pexpr_ren f) as Ie. unfold Parser.pexprstmt. p_go.
 Qed.
 
-Lemma pparams_ren : forall f n ts, prel (map r) (pparams f n ts) (pparams f n (map ren_tok ts)).
+Lemma pparams_ren : forall f n ts, Forall P ts -> prel (map r) (pparams f n ts) (pparams f n (map ren_tok ts)).
 Proof.
-  induction f as [|f IH]; intros n ts; [reflexivity|].
+  induction f as [|f IH]; intros n ts H; [reflexivity|].
   rewrite !pparams_S. p_go.
 Qed.
 
 Definition StmtRen (f : nat) : Prop :=
-  (forall ts, prel ren_stmt_all (pdecl f ts) (pdecl f (map ren_tok ts))) /\
-  (forall ts, prel ren_stmt_all (pstmt f ts) (pstmt f (map ren_tok ts))) /\
-  (forall ts, prel (map ren_stmt_all) (pblock f ts) (pblock f (map ren_tok ts))).
+  (forall ts, Forall P ts -> prel ren_stmt_all (pdecl f ts) (pdecl f (map ren_tok ts))) /\
+  (forall ts, Forall P ts -> prel ren_stmt_all (pstmt f ts) (pstmt f (map ren_tok ts))) /\
+  (forall ts, Forall P ts -> prel (map ren_stmt_all) (pblock f ts) (pblock f (map ren_tok ts))).
 
 Lemma stmt_ren_all : forall f, StmtRen f.
 Proof.
@@ -414,27 +463,27 @@ Proof.
     pose proof (pexpr_ren f) as Ie. pose proof (pvar_ren f) as Iv.
     pose proof (pexprstmt_ren f) as Ix. pose proof (pparams_ren f) as Ip.
     unfold StmtRen. split; [|split].
-    + intros ts. rewrite !pdecl_S. p_go.
-    + intros ts. rewrite !pstmt_S. p_go.
-    + intros ts. rewrite !pblock_S. p_go.
+    + intros ts H. rewrite !pdecl_S. p_go.
+    + intros ts H. rewrite !pstmt_S. p_go.
+    + intros ts H. rewrite !pblock_S. p_go.
 Qed.
 
-Lemma pprogram_ren : forall f ts, prel (map ren_stmt_all) (pprogram f ts) (pprogram f (map ren_tok ts)).
+Lemma pprogram_ren : forall f ts, Forall P ts ->
+  prel (map ren_stmt_all) (pprogram f ts) (pprogram f (map ren_tok ts)).
 Proof.
-  induction f as [|f IH]; intros ts; [reflexivity|].
+  induction f as [|f IH]; intros ts H; [reflexivity|].
   pose proof (proj1 (stmt_ren_all f)) as Id.
   rewrite !pprogram_S. p_go.
 Qed.
 
-(* ================================================================ *)
-(** * 3. The theorems, spelled out *)
+End WithEof.
 
 (** what [rdiag] says about the three fields *)
 Lemma rdiag_spec d d' : rdiag d d' ->
   pd_line d' = pd_line d /\ pd_kind d' = pd_kind d /\
   (pd_where d' = pd_where d \/ pd_where d' = option_map r (pd_where d)).
 Proof.
-  intros H. destruct H as [t k|l k]; unfold diag_tok; cbn [pd_line pd_kind pd_where option_map].
+  intros H. destruct H as [t k _|l k]; unfold diag_tok; cbn [pd_line pd_kind pd_where option_map].
   - rewrite tline_ren. split; [reflexivity|]. split; [reflexivity|].
     destruct (tkind_eqb (tk t) TIDENTIFIER) eqn:K.
     + apply tkind_eqb_eq in K. right. rewrite (tlex_ren_id t K). reflexivity.
@@ -454,45 +503,152 @@ Proof. intros H. inversion H. reflexivity. Qed.
 Lemma rdiags_nil_r ds : Forall2 rdiag ds [] -> ds = [].
 Proof. intros H. inversion H. reflexivity. Qed.
 
+(** when [r] fixes the lexeme of every token that has property [P] and is not an
+    identifier, the related diagnostic is the naively renamed one *)
+Definition nonid_fixed : Prop := forall t, P t -> tk t <> TIDENTIFIER -> r (tlex t) = tlex t.
+
+Lemma rdiag_map_pd d d' : nonid_fixed -> rdiag d d' -> d' = map_pd d.
+Proof.
+  intros HP H. destruct H as [t k Ht|l k]; unfold map_pd, diag_tok; cbn [pd_line pd_kind pd_where option_map].
+  - rewrite tline_ren. f_equal. f_equal.
+    destruct (tkind_eqb (tk t) TIDENTIFIER) eqn:K.
+    + apply tkind_eqb_eq in K. apply tlex_ren_id. exact K.
+    + assert (K' : tk t <> TIDENTIFIER) by (intros E; apply tkind_eqb_eq in E; congruence).
+      rewrite (tlex_ren_other t K'). symmetry. apply HP; assumption.
+  - reflexivity.
+Qed.
+
+Lemma rdiags_map_pd ds ds' : nonid_fixed -> Forall2 rdiag ds ds' -> ds' = map map_pd ds.
+Proof.
+  intros HP. induction 1 as [|d d' ds ds' Hd _ IH]; [reflexivity|].
+  cbn [map]. rewrite (rdiag_map_pd d d' HP Hd), IH. reflexivity.
+Qed.
+
+(** the renamed result, as a function of the original one *)
+Definition map_pres {A} (g : A -> A) (x : pres A) : pres A :=
+  match x with
+  | POk a rest ds => POk (g a) (map ren_tok rest) (map map_pd ds)
+  | PErr ds => PErr (map map_pd ds)
+  | PFuel => PFuel
+  end.
+
+Definition prel_open {A} (g : A -> A) (x x' : pres A) : Prop :=
+  match x with
+  | POk a rest ds => exists ds', x' = POk (g a) (map ren_tok rest) ds' /\ Forall2 rdiag ds ds'
+  | PErr ds => exists ds', x' = PErr ds' /\ Forall2 rdiag ds ds'
+  | PFuel => x' = PFuel
+  end.
+
+Lemma prel_spec {A} (g : A -> A) x x' : prel g x x' -> prel_open g x x'.
+Proof. destruct x; simpl; [tauto|auto|auto]. Qed.
+
+Lemma prel_map_pres {A} (g : A -> A) x x' : nonid_fixed -> prel g x x' -> x' = map_pres g x.
+Proof.
+  intros HP H. destruct x as [a rest ds|ds|]; simpl in H |- *.
+  - destruct H as (_ & ds' & -> & Hd). rewrite (rdiags_map_pd ds ds' HP Hd). reflexivity.
+  - destruct H as (ds' & -> & Hd). rewrite (rdiags_map_pd ds ds' HP Hd). reflexivity.
+  - exact H.
+Qed.
+
+End Track.
+
+(* ================================================================ *)
+(** * 3. The theorems, spelled out *)
+
+Section Final.
+Variable eofl : N.
+Hypothesis r_inj : forall a b, r a = r b -> a = b.
+Hypothesis r_reserved : forall x, In (r x) reserved_names <-> In x reserved_names.
+
+Notation pexpr := (Parser.pexpr eofl).
+Notation pdecl := (Parser.pdecl eofl).
+Notation pprogram := (Parser.pprogram eofl).
+
+Lemma Forall_In_self (ts : list token) : Forall (fun t => In t ts) ts.
+Proof. apply Forall_forall. auto. Qed.
+
+(** the diagnostics of the renamed list quote the renamed version of a token of [ts] *)
+Notation rdiag_of ts := (rdiag (fun t => In t ts)).
+
 (** (P1) Parsing the renamed token list: the renamed tree, the renamed rest, the same
     diagnostics about the renamed tokens; an expression ... *)
 Theorem pexpr_rename f ts :
   match pexpr f ts with
-  | POk e rest ds => exists ds', pexpr f (map ren_tok ts) = POk (ren_expr_all e) (map ren_tok rest) ds' /\ Forall2 rdiag ds ds'
-  | PErr ds => exists ds', pexpr f (map ren_tok ts) = PErr ds' /\ Forall2 rdiag ds ds'
+  | POk e rest ds =>
+      exists ds', pexpr f (map ren_tok ts) = POk (ren_expr_all e) (map ren_tok rest) ds' /\ Forall2 (rdiag_of ts) ds ds'
+  | PErr ds => exists ds', pexpr f (map ren_tok ts) = PErr ds' /\ Forall2 (rdiag_of ts) ds ds'
   | PFuel => pexpr f (map ren_tok ts) = PFuel
   end.
-Proof. exact (pexpr_ren f ts). Qed.
+Proof.
+  assert (H : prel (fun t => In t ts) ren_expr_all (pexpr f ts) (pexpr f (map ren_tok ts)))
+    by (apply pexpr_ren; first [assumption | apply Forall_In_self]).
+  exact (prel_spec _ _ _ _ H).
+Qed.
 
 (** ... a declaration or statement ... *)
 Theorem pdecl_rename f ts :
   match pdecl f ts with
-  | POk s rest ds => exists ds', pdecl f (map ren_tok ts) = POk (ren_stmt_all s) (map ren_tok rest) ds' /\ Forall2 rdiag ds ds'
-  | PErr ds => exists ds', pdecl f (map ren_tok ts) = PErr ds' /\ Forall2 rdiag ds ds'
+  | POk s rest ds =>
+      exists ds', pdecl f (map ren_tok ts) = POk (ren_stmt_all s) (map ren_tok rest) ds' /\ Forall2 (rdiag_of ts) ds ds'
+  | PErr ds => exists ds', pdecl f (map ren_tok ts) = PErr ds' /\ Forall2 (rdiag_of ts) ds ds'
   | PFuel => pdecl f (map ren_tok ts) = PFuel
   end.
-Proof. exact (proj1 (stmt_ren_all f) ts). Qed.
+Proof.
+  assert (H : prel (fun t => In t ts) ren_stmt_all (pdecl f ts) (pdecl f (map ren_tok ts)))
+    by (apply stmt_ren_all; first [assumption | apply Forall_In_self]).
+  exact (prel_spec _ _ _ _ H).
+Qed.
 
 (** ... a program *)
 Theorem pprogram_rename f ts :
   match pprogram f ts with
   | POk ss rest ds =>
-      exists ds', pprogram f (map ren_tok ts) = POk (map ren_stmt_all ss) (map ren_tok rest) ds' /\ Forall2 rdiag ds ds'
-  | PErr ds => exists ds', pprogram f (map ren_tok ts) = PErr ds' /\ Forall2 rdiag ds ds'
+      exists ds', pprogram f (map ren_tok ts) = POk (map ren_stmt_all ss) (map ren_tok rest) ds' /\
+                  Forall2 (rdiag_of ts) ds ds'
+  | PErr ds => exists ds', pprogram f (map ren_tok ts) = PErr ds' /\ Forall2 (rdiag_of ts) ds ds'
   | PFuel => pprogram f (map ren_tok ts) = PFuel
   end.
-Proof. exact (pprogram_ren f ts). Qed.
+Proof.
+  assert (H : prel (fun t => In t ts) (map ren_stmt_all) (pprogram f ts) (pprogram f (map ren_tok ts)))
+    by (apply pprogram_ren; first [assumption | apply Forall_In_self]).
+  exact (prel_spec _ _ _ _ H).
+Qed.
+
+(** the equation asked for -- the renamed result is [map_pres] of the original one --
+    holds when [r] fixes the lexemes of the tokens of [ts] that are not identifiers
+    (punctuation, keywords, literals); without that hypothesis it is false
+    ([map_pd_is_false] in Proofs/RenameParseRun.v) *)
+Definition fixes_other_lexemes (ts : list token) : Prop :=
+  forall t, In t ts -> tk t <> TIDENTIFIER -> r (tlex t) = tlex t.
+
+Theorem pexpr_rename_eq f ts : fixes_other_lexemes ts ->
+  pexpr f (map ren_tok ts) = map_pres ren_expr_all (pexpr f ts).
+Proof.
+  intros H.
+  assert (R : prel (fun t => In t ts) ren_expr_all (pexpr f ts) (pexpr f (map ren_tok ts)))
+    by (apply pexpr_ren; first [assumption | apply Forall_In_self]).
+  exact (prel_map_pres _ _ _ _ H R).
+Qed.
+
+Theorem pprogram_rename_eq f ts : fixes_other_lexemes ts ->
+  pprogram f (map ren_tok ts) = map_pres (map ren_stmt_all) (pprogram f ts).
+Proof.
+  intros H.
+  assert (R : prel (fun t => In t ts) (map ren_stmt_all) (pprogram f ts) (pprogram f (map ren_tok ts)))
+    by (apply pprogram_ren; first [assumption | apply Forall_In_self]).
+  exact (prel_map_pres _ _ _ _ H R).
+Qed.
 
 (** the top-level entry point: the renamed tree (or none), related diagnostics, the
     same fuel flag *)
 Theorem parse_rename ts :
   pr_prog (parse (map ren_tok ts) eofl) = option_map (map ren_stmt_all) (pr_prog (parse ts eofl)) /\
-  Forall2 rdiag (pr_diags (parse ts eofl)) (pr_diags (parse (map ren_tok ts) eofl)) /\
+  Forall2 (rdiag_of ts) (pr_diags (parse ts eofl)) (pr_diags (parse (map ren_tok ts) eofl)) /\
   pr_fuel_out (parse (map ren_tok ts) eofl) = pr_fuel_out (parse ts eofl).
 Proof.
   unfold parse.
   replace (parse_fuel (map ren_tok ts)) with (parse_fuel ts) by (unfold parse_fuel; rewrite map_length; reflexivity).
-  pose proof (pprogram_ren (parse_fuel ts) ts) as H. unfold prel in H.
+  pose proof (pprogram_rename (parse_fuel ts) ts) as H.
   destruct (pprogram (parse_fuel ts) ts) as [ss rest ds|ds|].
   - destruct H as (ds' & -> & Hd). cbn [pr_prog pr_diags pr_fuel_out option_map]. auto.
   - destruct H as (ds' & -> & Hd). cbn [pr_prog pr_diags pr_fuel_out option_map]. auto.
@@ -502,7 +658,16 @@ Qed.
 Corollary parse_rename_diags ts :
   map pd_line (pr_diags (parse (map ren_tok ts) eofl)) = map pd_line (pr_diags (parse ts eofl)) /\
   map pd_kind (pr_diags (parse (map ren_tok ts) eofl)) = map pd_kind (pr_diags (parse ts eofl)).
-Proof. destruct (parse_rename ts) as (_ & H & _). apply rdiags_lines_kinds. exact H. Qed.
+Proof. destruct (parse_rename ts) as (_ & H & _). eapply rdiags_lines_kinds. exact H. Qed.
+
+Corollary parse_rename_eq ts : fixes_other_lexemes ts ->
+  pr_prog (parse (map ren_tok ts) eofl) = option_map (map ren_stmt_all) (pr_prog (parse ts eofl)) /\
+  pr_diags (parse (map ren_tok ts) eofl) = map map_pd (pr_diags (parse ts eofl)) /\
+  pr_fuel_out (parse (map ren_tok ts) eofl) = pr_fuel_out (parse ts eofl).
+Proof.
+  intros H. destruct (parse_rename ts) as (Hp & Hd & Hf).
+  split; [exact Hp|]. split; [|exact Hf]. eapply rdiags_map_pd; [|exact Hd]. exact H.
+Qed.
 
 (** a token list is accepted with tree [prog]: no diagnostic, and a tree *)
 Definition accepts (ts : list token) (prog : list stmt) : Prop :=
@@ -511,9 +676,9 @@ Definition accepts (ts : list token) (prog : list stmt) : Prop :=
 Theorem parse_rename_accepted ts prog :
   accepts ts prog -> accepts (map ren_tok ts) (map ren_stmt_all prog).
 Proof.
-  intros [Hd Hp]. destruct (parse_rename ts) as (P & D & _). split.
-  - rewrite Hd in D. apply rdiags_nil_l. exact D.
-  - rewrite P, Hp. reflexivity.
+  intros [Hd Hp]. destruct (parse_rename ts) as (Pp & D & _). split.
+  - rewrite Hd in D. eapply rdiags_nil_l. exact D.
+  - rewrite Pp, Hp. reflexivity.
 Qed.
 
 (** (P2) the renamed token list is accepted iff the original one is *)
@@ -522,13 +687,13 @@ Theorem parse_rename_accepts ts :
 Proof.
   split.
   - intros (prog & H). exists (map ren_stmt_all prog). apply parse_rename_accepted. exact H.
-  - intros (prog' & Hd & Hp). destruct (parse_rename ts) as (P & D & _).
+  - intros (prog' & Hd & Hp). destruct (parse_rename ts) as (Pp & D & _).
     rewrite Hd in D. apply rdiags_nil_r in D.
-    rewrite Hp in P. destruct (pr_prog (parse ts eofl)) as [prog|] eqn:E; [|discriminate P].
+    rewrite Hp in Pp. destruct (pr_prog (parse ts eofl)) as [prog|] eqn:E; [|discriminate Pp].
     exists prog. split; [exact D|exact E].
 Qed.
 
-End WithEof.
+End Final.
 End RenParse.
 
 (** the reserved-name hypothesis follows from "[r] is injective and fixes the built-in
@@ -548,8 +713,10 @@ Qed.
 
 (* ---------------------------------------------------------------- *)
 Print Assumptions expr_ren_all.
+Print Assumptions stmt_ren_all.
 Print Assumptions pexpr_rename.
 Print Assumptions pprogram_rename.
+Print Assumptions pprogram_rename_eq.
 Print Assumptions parse_rename.
 Print Assumptions parse_rename_accepts.
 Print Assumptions r_reserved_of_native.
